@@ -15,9 +15,9 @@
                     `basic_shapes.rs`).
   * `tessellateImpl` — `FillTessellator::tessellate_impl` (= `tessellate*`, `FillBuilder::build`).
   * `strokeRun`   — `StrokeBuilderImpl::{new, error, step, fixed_width_step, tessellate_fw,
-                    tessellate_with_ids_{fw,vw}, end, build}` (after fix 4ae25521: nothing is
+                    tessellate_with_ids_{fw,vw}, end, build}` (after fix 85d83d35: nothing is
                     issued once an error is latched).
-  * `shapeRun`    — `basic_shapes::{fill_rectangle, fill_circle}` (after fix 4b89a854: abort on
+  * `shapeRun`    — `basic_shapes::{fill_rectangle, fill_circle}` (after fix 34f2f5da: abort on
                     error).
   * `rectScript`, `circleScript` — the concrete request sequences of the two fast paths.
 
@@ -110,7 +110,7 @@ structure StrokeOutcome (σ : Type) where
   result : Option TErr
   pulled : Nat
 
-/-- The stroke tessellator seen from the builder (as repaired by lyon commit 4ae25521).
+/-- The stroke tessellator seen from the builder (as repaired by lyon commit 85d83d35).
 `StrokeBuilderImpl::new` calls `begin_geometry`; events issue requests under `?`; the first refusal
 is latched (`error()` keeps the first) and from then on `step`, `fixed_width_step` and `end` return
 before touching the builder — so neither the remaining flattening steps of the same curve event
@@ -124,7 +124,7 @@ def strokeRun {σ : Type} (S : Sink σ) (events : List (List CReq)) (s : σ) : S
   | none => ⟨S.endG x.st, .begin :: x.calls ++ [.endG], none, x.pulled⟩
   | some e => ⟨S.abort x.st, .begin :: x.calls ++ [.abort], some (.geometryBuilder e), x.pulled⟩
 
-/-- `basic_shapes::fill_rectangle` / `fill_circle` (as repaired by lyon commit 4b89a854):
+/-- `basic_shapes::fill_rectangle` / `fill_circle` (as repaired by lyon commit 34f2f5da):
 `begin_geometry`, the requests of `fill_*_impl` under `?`; on `Err` `abort_geometry` and the error,
 otherwise `end_geometry` and `Ok`. -/
 def shapeRun {σ : Type} (S : Sink σ) (script : List CReq) (s : σ) : Outcome σ :=
